@@ -274,7 +274,7 @@ impl Profile {
             pool_max: 12,
             min_ops: 1,
             max_ops: 60,
-            max_bufs: vec![None],
+            max_bufs: vec![None, None, Some(1024)],
         }
     }
 }
